@@ -605,6 +605,24 @@ func (in *Interp) invoke(g *Goroutine, fv *FuncV, args []Value, retReg int, onRe
 		in.invoke(g, st, args, retReg, onRet, isDefer)
 		return
 	}
+	if pkgPathOf(fn) == "log" && fn.Name() != "init" {
+		// logging is never the subject: empty bodies (Fatal*/Panic* end the goroutine with a panic)
+		if strings.HasPrefix(fn.Name(), "Fatal") || strings.HasPrefix(fn.Name(), "Panic") {
+			in.goPanic("log." + fn.Name())
+		}
+		var res Value
+		if rs := fn.Signature.Results(); rs.Len() == 1 {
+			res = in.zero(rs.At(0).Type())
+		} else if rs.Len() > 1 {
+			t := make(TupleV, rs.Len())
+			for k := range t {
+				t[k] = in.zero(rs.At(k).Type())
+			}
+			res = t
+		}
+		in.deliver(g, res, retReg, onRet)
+		return
+	}
 	if h, ok := intrinsics[name]; ok && !fv.noIntr {
 		all := args
 		if len(fv.bindings) > 0 {
@@ -1114,6 +1132,20 @@ func (in *Interp) decide(n int, feas func(i int) bool) int {
 		c := in.prefix[in.pos]
 		in.pos++
 		in.taken = append(in.taken, c)
+		if in.verbose {
+			var names []string
+			for d := 1; d < 5; d++ {
+				if pc, _, line, ok := runtime.Caller(d); ok {
+					n := runtime.FuncForPC(pc).Name()
+					names = append(names, fmt.Sprintf("%s:%d", n[strings.LastIndex(n, ".")+1:], line))
+				}
+			}
+			where := ""
+			if f := in.cur.top(); f != nil {
+				where = f.fn.String() + " " + in.posOf(f)
+			}
+			fmt.Fprintf(os.Stderr, "  decide(%d)=%d from %s in %s\n", n, c, strings.Join(names, "<"), where)
+		}
 		return c
 	}
 	first := -1
